@@ -10,9 +10,9 @@ def comp_state(c):
     return {"p": F(c.p), "type": c.type, "first": F(c.first), "second": F(c.second)}
 
 
-class _Mix:
-    def __init__(self, c1, c2):
-        self.first_component, self.second_component = c1, c2
+def _mix(c1, c2, name="pair"):
+    from pyvaporation.utils import NRTLParameters
+    return pv.Mixture(name=name, first_component=c1, second_component=c2, nrtl_params=NRTLParameters(g12=0, g21=0, alpha12=0.3))
 
 
 def record(tw, rng, n_chains, stats):
@@ -21,7 +21,7 @@ def record(tw, rng, n_chains, stats):
         u = rng.random()
         if u < 0.4:
             c1, c2 = rng.sample(comps, 2)
-            mix = _Mix(c1, c2)
+            mix = _mix(c1, c2)
         else:
             ratio = gen.logu(rng, 1.0, 1000.0)
             m1 = gen.logu(rng, 1.0, 1000.0 / ratio) if rng.random() < 0.5 else gen.logu(rng, ratio, 1000.0)
